@@ -487,6 +487,22 @@ def e_rules(p: Project, rep: Report, thorough=False, func_filter=None):
                 read = gname in name_reads
                 rep.check("E-R1", f"{modname}:{qn}:global({gname})", not read, f"module global {gname} is re-bound here and read in scope: results depend on earlier calls" if read else "", ctx.where(w.stmt))
                 continue
+            if w.kind == "call:__iadd__":
+                # `x += y` changes an object in place only if x is a mutable sequence / set / mapping: annotated
+                # str / int / bytes / Decimal / tuple names and right-hand sides are re-bindings
+                IMM = ("str", "int", "float", "bytes", "bool", "Decimal", "decimal.Decimal", "tuple", "datetime.timedelta", "timedelta", "Optional[str]")
+                nm_ = w.target.id
+                ann = next((text(a.annotation) for a in list(fn.args.args) + list(fn.args.kwonlyargs) if a.arg == nm_ and a.annotation is not None), None)
+                ann = ann or next((text(s_.annotation) for s_ in own_statements(fn) if isinstance(s_, ast.AnnAssign) and isinstance(s_.target, ast.Name) and s_.target.id == nm_), None)
+                rhs = w.stmt.value
+                rann = None
+                if isinstance(rhs, ast.Call) and isinstance(rhs.func, ast.Name):
+                    r_ = p.resolve(modname, rhs.func.id)
+                    rn_ = getattr(r_, "node", None)
+                    if isinstance(rn_, ast.FunctionDef) and rn_.returns is not None:
+                        rann = text(rn_.returns)
+                if (ann in IMM) or (rann in IMM):
+                    continue
             node = ctx.cfg.node_of(w.stmt)
             if node is None:
                 raise AnalysisError(f"write site {text(w.target)} in {modname}:{qn} not found in the CFG")
